@@ -232,6 +232,15 @@ class Run:
     self.assumptions = []
     self.audit = None
     self.replay_paths = []
+    # stale replay files of earlier runs of this property would be mistaken for this run's
+    rdir = os.path.join(VERIF, "replays")
+    if os.path.isdir(rdir):
+      for f in os.listdir(rdir):
+        if f.startswith(prop + "-"):
+          try:
+            os.remove(os.path.join(rdir, f))
+          except OSError:
+            pass
 
   # -- bookkeeping
   def count(self, bucket: str, n: int = 1):
